@@ -400,6 +400,377 @@ def specs(ctx):
     return out
 
 
+# ---------------------------------------------------------------------------------------------
+# attribute tables with arbitrary content: non-finite entries, duplicates, one row, dtypes,
+# containers, layouts
+# ---------------------------------------------------------------------------------------------
+FLOAT_DT = ("f8", "f4", "f2")
+INT_DT = ("i8", "i4", "u1", "bool")
+NF_PATTERNS = ("none", "disjoint_equal", "disjoint_unequal", "same_rows", "overlap_equal", "w_only", "z_only",
+               "all_w", "all_z", "all_both")
+DUP_PATTERNS = ("none", "dup_w", "dup_z", "dup_rows", "const")
+CONTAINERS = ("ndarray", "list", "tuple", "series")
+LAYOUTS = ("plain", "strided", "readonly", "reversed_view")
+
+
+def f64bits(x):
+    return struct.unpack("<Q", struct.pack("<d", float(x)))[0]
+
+
+def fv(x):
+    """value of a float64 as a Coq term of type fval (NaN is one value, -0.0 = 0.0)"""
+    x = float(x)
+    if math.isnan(x):
+        return "FNaN"
+    if math.isinf(x):
+        return "FPInf" if x > 0 else "FNInf"
+    return "(FFin %s)" % fq.q(x)
+
+
+def base_column(col, dtype, m, fine=False):
+    """m distinct finite values, exactly representable in the dtype (strings, so that a spec is JSON); the weights
+    increase with the row number, the redshifts do not (a per-column reordering must break rows); fine = float64
+    values that need the whole mantissa (no narrower dtype holds them)"""
+    perm = [(7 * j + 3) % 32 for j in range(m)]
+    if dtype == "bool":
+        return [str(float(j % 2 == 0)) for j in range(m)]
+    if dtype in INT_DT:
+        return [str(float(j + 1 if col == "w" else 100 + perm[j])) for j in range(m)]
+    if fine and dtype == "f8":
+        return [repr((j + 1) * 0.5 + 2.0 ** -40 if col == "w" else 0.1 * (perm[j] + 1)) for j in range(m)]
+    return [repr((j + 1) * 0.5 if col == "w" else (perm[j] + 1) / 1024.0) for j in range(m)]
+
+
+def nf_rows(rng, pattern, m, mode):
+    """rows of the weights / redshifts column that hold a non-finite entry"""
+    rows = list(range(m))
+    rng.shuffle(rows)
+    c = rng.choice([1, 1, 2, 3])
+    if pattern == "none":
+        rw, rz = [], []
+    elif pattern == "disjoint_equal":
+        c = max(1, min(c, m // 2))
+        rw, rz = rows[:c], rows[c:2 * c]
+    elif pattern == "disjoint_unequal":
+        a, b = rng.choice([(1, 2), (2, 1), (1, 3), (3, 1), (2, 3)])
+        rw, rz = rows[:a], rows[a:a + b]
+    elif pattern == "same_rows":
+        rw = rz = rows[:min(c, m)]
+    elif pattern == "overlap_equal":
+        rw, rz = rows[0:2], rows[1:3]
+    elif pattern == "w_only":
+        rw, rz = rows[:min(c, m)], []
+    elif pattern == "z_only":
+        rw, rz = [], rows[:min(c, m)]
+    elif pattern == "all_w":
+        rw, rz = rows, []
+    elif pattern == "all_z":
+        rw, rz = [], rows
+    else:
+        rw, rz = rows, rows
+    if mode == "w":
+        rz = []
+    if mode == "z":
+        rw = []
+    return sorted(rw), sorted(rz)
+
+
+def make_table(rng, m, mode, nf, dup, wdt, zdt, container, layout, zero=False, fine=False):
+    """a JSON-able description of one supplied table"""
+    w = base_column("w", wdt, m, fine)
+    z = base_column("z", zdt, m, fine)
+    if zero and m >= 2:
+        if wdt in FLOAT_DT:
+            w[rng.randrange(m)] = rng.choice(["-0.0", "0.0"])
+        if zdt in FLOAT_DT:
+            z[rng.randrange(m)] = rng.choice(["-0.0", "0.0"])
+    if dup == "dup_w":
+        w = [w[j % 2] for j in range(m)]
+    elif dup == "dup_z":
+        z = [z[j % 2] for j in range(m)]
+    elif dup == "dup_rows":
+        h = max(1, (m + 1) // 2)
+        w, z = [w[j % h] for j in range(m)], [z[j % h] for j in range(m)]
+    elif dup == "const":
+        w, z = [w[0]] * m, [z[0]] * m
+    rw, rz = nf_rows(rng, nf, m, mode)
+    if wdt not in FLOAT_DT:
+        rw = []
+    if zdt not in FLOAT_DT:
+        rz = []
+    for j in rw:
+        w[j] = rng.choice(["nan", "nan", "inf", "-inf"])
+    for j in rz:
+        z[j] = rng.choice(["nan", "nan", "inf", "-inf"])
+    if not rw and not rz:
+        nf = "none"
+    return dict(m=m, mode=mode, nf=nf, dup=dup, wdtype=wdt, zdtype=zdt, container=container, layout=layout,
+                w=w if mode in ("w", "both") else None, z=z if mode in ("z", "both") else None,
+                nf_rows_w=rw, nf_rows_z=rz)
+
+
+def build_column(vals, dtype, container, layout):
+    """(object handed to the generator, the same samples widened to float64)"""
+    if vals is None:
+        return None, None
+    arr = np.array([float(v) for v in vals], dtype=dtype)
+    wide = np.array(arr, dtype="f8")
+    if layout == "strided":
+        buf = np.zeros(2 * len(arr) + 1, dtype=dtype)
+        buf[1::2] = arr
+        arr = buf[1::2]
+    elif layout == "reversed_view":
+        arr = np.array(arr[::-1])[::-1]
+    elif layout == "readonly":
+        arr.setflags(write=False)
+    if container == "list":
+        arr = arr.tolist()
+    elif container == "tuple":
+        arr = tuple(arr.tolist())
+    elif container == "series":
+        import pandas as pd
+        arr = pd.Series(np.array(arr))
+    return arr, wide
+
+
+def table_kwargs(table):
+    w, ww = build_column(table["w"], table["wdtype"], table["container"], table["layout"])
+    z, zw = build_column(table["z"], table["zdtype"], table["container"], table["layout"])
+    kw = {}
+    if w is not None:
+        kw["weights"] = w
+    if z is not None:
+        kw["redshifts"] = z
+    return kw, ww, zw
+
+
+def twin_kwargs(table):
+    idx = np.arange(table["m"], dtype="f8")
+    kw = {}
+    if table["w"] is not None:
+        kw["weights"] = idx.copy()
+    if table["z"] is not None:
+        kw["redshifts"] = idx.copy()
+    return kw
+
+
+def table_plain(table):
+    return (table["nf"] == "none" and table["dup"] == "none" and table["m"] > 1 and table["container"] == "ndarray"
+            and table["layout"] == "plain" and table["wdtype"] == "f8" and table["zdtype"] == "f8"
+            and not table["nf_rows_w"] and not table["nf_rows_z"])
+
+
+def refusal_label(table, exc):
+    """a refusal of an input the property does not promise to accept, or None"""
+    if table["container"] != "ndarray" and isinstance(exc, (TypeError, ValueError, IndexError, KeyError)):
+        return "refused:" + table["container"]
+    used = [d for d, v in ((table["wdtype"], table["w"]), (table["zdtype"], table["z"])) if v is not None]
+    if any(d in ("f2", "bool") for d in used) and isinstance(exc, (TypeError, ValueError)):
+        return "refused:dtype"
+    if (table["nf_rows_w"] or table["nf_rows_z"]) and isinstance(exc, ValueError):
+        return "refused:nonfinite"
+    return None
+
+
+def attr_specs(ctx):
+    rng = random.Random(ctx.rng.getrandbits(64))
+    out = []
+
+    def add(table, **over):
+        window, wlabel = WINDOWS[rng.randrange(len(WINDOWS))]
+        cs = rng.choice([2, 3, 5, 8])
+        n = rng.choice([1, cs, cs + 1, 2 * cs + 1, 3 * cs - 1, 4 * cs])
+        ncent = 2 if (n >= 16 and rng.random() < 0.4) else 1
+        centers = [[window[0] + (window[1] - window[0]) * rng.randrange(0, 9) / 8.0,
+                    max(-90.0, min(90.0, window[2] + (window[3] - window[2]) * rng.randrange(0, 9) / 8.0))]
+                   for _ in range(ncent)]
+        spec = dict(table=table, window=list(window), wlabel=wlabel,
+                    seed=rng.choice([0, 1, 12345, rng.randrange(2 ** 31), rng.randrange(2 ** 62)]),
+                    calls=[rng.choice([1, 2, 5, 16]), rng.choice([1, 3, 8])], n=n, cs=cs, centers=centers)
+        spec.update(over)
+        out.append(spec)
+
+    # ---- a fixed grid: every placement of non-finite entries, every duplicate pattern, every dtype / container ----
+    for nf in NF_PATTERNS:
+        for m in (2, 5) if nf not in ("disjoint_unequal", "overlap_equal") else (5,):
+            add(make_table(rng, m, "both", nf, "none", "f8", "f8", "ndarray", "plain"))
+    add(make_table(rng, 17, "both", "disjoint_equal", "none", "f8", "f8", "ndarray", "plain"), calls=[16, 8], n=33, cs=8)
+    add(make_table(rng, 3, "both", "disjoint_equal", "none", "f4", "f4", "ndarray", "plain"))
+    add(make_table(rng, 1, "both", "none", "none", "f8", "f8", "ndarray", "plain"))
+    add(make_table(rng, 5, "both", "none", "none", "f8", "f8", "ndarray", "plain", fine=True))
+    add(make_table(rng, 8, "both", "disjoint_equal", "none", "f8", "f8", "ndarray", "plain", fine=True))
+    add(make_table(rng, 1, "both", "all_both", "none", "f8", "f8", "ndarray", "plain"))
+    for dup in DUP_PATTERNS[1:]:
+        add(make_table(rng, 5, "both", "none", dup, "f8", "f8", "ndarray", "plain"))
+        add(make_table(rng, 5, "both", "disjoint_equal", dup, "f8", "f8", "ndarray", "plain"))
+    for dt in ("f4", "f2", "i8", "i4", "u1", "bool"):
+        add(make_table(rng, 5, "both", "none", "none", dt, dt, "ndarray", "plain"))
+    add(make_table(rng, 5, "both", "z_only", "none", "i8", "f4", "ndarray", "plain"))
+    add(make_table(rng, 5, "both", "w_only", "none", "f4", "i4", "ndarray", "plain"))
+    for cont in CONTAINERS[1:]:
+        add(make_table(rng, 3, "both", "none", "none", "f8", "f8", cont, "plain"))
+        add(make_table(rng, 3, "both", "disjoint_equal", "none", "f8", "f8", cont, "plain"))
+    for lay in LAYOUTS[1:]:
+        add(make_table(rng, 5, "both", "disjoint_equal", "none", "f8", "f8", "ndarray", lay))
+    for mode in ("w", "z"):
+        add(make_table(rng, 3, mode, "same_rows", "none", "f8", "f8", "ndarray", "plain"))
+        add(make_table(rng, 1, mode, "none", "none", "f4", "f4", "ndarray", "plain"))
+    # ---- random combinations ----
+    total = ctx.n(90, 600)
+    while len(out) < total:
+        mode = rng.choice(["both", "both", "both", "both", "w", "z"])
+        m = rng.choice([1, 2, 3, 3, 5, 8, 17])
+        nf = rng.choice(NF_PATTERNS + ("disjoint_equal", "disjoint_equal", "none"))
+        dup = rng.choice(DUP_PATTERNS + ("none", "none", "none"))
+        wdt = rng.choice(FLOAT_DT + ("f8", "f8", "f4") + INT_DT[:3]) if rng.random() < 0.95 else "bool"
+        zdt = wdt if rng.random() < 0.6 else rng.choice(FLOAT_DT + ("f8", "f4") + INT_DT[:3])
+        cont = rng.choice(CONTAINERS) if rng.random() < 0.2 else "ndarray"
+        lay = rng.choice(LAYOUTS) if rng.random() < 0.3 else "plain"
+        add(make_table(rng, m, mode, nf, dup, wdt, zdt, cont, lay, zero=rng.random() < 0.15, fine=rng.random() < 0.3))
+    return out
+
+
+def attr_columns(arr, table):
+    """stored (weights, redshifts) of one structured array as float lists; a missing column is the constant 0"""
+    names = arr.dtype.names
+    w = [float(x) for x in arr["weights"]] if "weights" in names else [0.0] * len(arr)
+    z = [float(x) for x in arr["redshifts"]] if "redshifts" in names else [0.0] * len(arr)
+    return w, z
+
+
+def attr_term(k, subject, twin, fresh, table, ww, zw, lims, ctx):
+    """subject / twin / fresh: lists of structured arrays (one per call or per stored patch, same order)"""
+    m = table["m"]
+    src_w = list(ww) if ww is not None else [0.0] * m
+    src_z = list(zw) if zw is not None else [0.0] * m
+    ras = [float(x) for a in subject for x in a["ra"]]
+    decs = [float(x) for a in subject for x in a["dec"]]
+    coords_same = (len(subject) == len(twin) and
+                   all(len(a) == len(b) and a["ra"].tobytes() == b["ra"].tobytes() and a["dec"].tobytes() == b["dec"].tobytes()
+                       for a, b in zip(subject, twin)))
+    tcol = "weights" if table["w"] is not None else "redshifts"
+    tidx = []
+    for b in twin:
+        for x in b[tcol]:
+            x = float(x)
+            tidx.append(int(x) if (math.isfinite(x) and x == int(x) and 0 <= x < 4000) else 4999)
+    pw, pz = [], []
+    for a in subject:
+        w, z = attr_columns(a, table)
+        pw += w
+        pz += z
+    repro = (len(subject) == len(fresh) and
+             all(a.dtype == b.dtype and a.tobytes() == b.tobytes() for a, b in zip(subject, fresh)))
+    cras, cdecs = clamp_near_ties(ctx, ras, decs, lims)
+    term = "c16_attr_case %s %s %s %s %s %s %s %s %s %s %s %s %s %s %s %s %s %s" % (
+        fq.nat(k), fq.nat(sum(len(a) for a in subject)), fq.nat(m),
+        fq.q(lims[0]), fq.q(lims[1]), fq.q(lims[2]), fq.q(lims[3]), fq.qlist(cras), fq.qlist(cdecs),
+        fq.lst(src_w, fv), fq.lst(src_z, fv),
+        fq.zlist([f64bits(x) for x in src_w]), fq.zlist([f64bits(x) for x in src_z]),
+        fq.nlist(tidx), fq.b(coords_same),
+        fq.lst([fq.pair(fv(a), fv(b)) for a, b in zip(pw, pz)]),
+        fq.lst([fq.pair(fq.z(f64bits(a)), fq.z(f64bits(b))) for a, b in zip(pw, pz)]),
+        fq.b(repro))
+    shown = dict(source_rows=[(repr(a), repr(b)) for a, b in zip(src_w, src_z)],
+                 stored_pairs=[(repr(a), repr(b)) for a, b in zip(pw, pz)][:40],
+                 twin_indices=tidx[:40], coords_same=coords_same, repro=repro)
+    return term, shown
+
+
+def attr_case(ctx, spec, idx, Plain):
+    """-> list of (phase, term, replay) ; raises what the implementation raises on the SUBJECT only
+    through AttrRefused / a plain exception"""
+    table = spec["table"]
+    window = spec["window"]
+    lims = tuple(float(np.deg2rad(x)) for x in window)
+    centers = impl.AngularCoordinates(np.deg2rad(np.asarray(spec["centers"], dtype="f8")))
+    seed, n, cs = spec["seed"], spec["n"], spec["cs"]
+    kw, ww, zw = table_kwargs(table)
+    out = []
+    with warnings.catch_warnings():
+        warnings.simplefilter("ignore")
+        # ---- the twin and the subject, driven identically ----
+        twin = Plain(*window, seed=seed, **twin_kwargs(table))
+        tw_calls = [twin(k) for k in spec["calls"]]
+        gen = Plain(*window, seed=seed, **kw)
+        sub_calls = [gen(k) for k in spec["calls"]]
+        kw2, _, _ = table_kwargs(table)
+        fresh = Plain(*window, seed=seed, **kw2)
+        fr_calls = [fresh(k) for k in spec["calls"]]
+        term, shown = attr_term(sum(spec["calls"]), sub_calls, tw_calls, fr_calls, table, ww, zw, lims, ctx)
+        out.append(("direct", term, dict(spec=spec, phase="direct calls gen(k) for k in spec.calls", **shown)))
+        # ---- the same (used) generators through Catalog.from_random ----
+        recs = []
+        for g, name in ((twin, "atw"), (gen, "asu"), (fresh, "afr")):
+            d = impl.fresh_dir(ctx, "%s_%d" % (name, idx))
+            try:
+                cat = impl.Catalog.from_random(d, g, n, patch_centers=centers, chunksize=cs, max_workers=1)
+                r = impl.patch_records(cat)
+            finally:
+                shutil.rmtree(d, ignore_errors=True)
+            recs.append(r)
+        tw, su, fr = recs
+        order = sorted(su)
+        term, shown = attr_term(n, [su[p] for p in order], [tw[p] for p in order if p in tw] if sorted(tw) == order else [],
+                                [fr[p] for p in order if p in fr] if sorted(fr) == order else [], table, ww, zw, lims, ctx)
+        out.append(("catalog", term, dict(spec=spec, phase="Catalog.from_random(n, chunksize=cs, patch_centers)", **shown)))
+    return out
+
+
+ATTR_FAILS = [
+    (2, "c16-size", "the number of generated / stored records differs from the requested number"),
+    (4, "c16-outside-window", "a point lies outside the requested RA/Dec window"),
+    (8, "c16-attributes-not-joint", "a (weight, redshift) pair is not one row of the supplied samples (rows compared as "
+        "values, NaN = NaN)"),
+    (16, "c16-not-reproducible", "the records differ from those of a fresh generator with the same seed and the same samples"),
+]
+
+
+def run_attr_cases(ctx, Plain):
+    terms, metas = [], []
+    for idx, spec in enumerate(attr_specs(ctx)):
+        table = spec["table"]
+        key = "attr:" + repr(sorted((k, repr(v)) for k, v in spec.items()))
+        kind = "attr/%s/%s/%s+%s/%s/%s" % (table["mode"], table["nf"], table["wdtype"], table["zdtype"],
+                                          table["container"], table["dup"])
+        try:
+            res = attr_case(ctx, spec, idx, Plain)
+        except Exception as e:
+            if isinstance(e, ValueError) and ("contains no data" in str(e) or "patch centers and patch IDs with data do not match" in str(e)):
+                ctx.bump("skipped_empty_centre")
+                continue
+            label = refusal_label(table, e)
+            if label is not None:
+                ctx.bump(label)
+                ctx.bump("%s:%s" % (label, type(e).__name__))
+                ctx.count(key=key, kind="attr/refused")
+                continue
+            ctx.count(key=key, kind="raised")
+            ctx.fail("c16-raises:%s" % type(e).__name__,
+                     "generating randoms from a valid attribute table raised %s: %s" % (type(e).__name__, e),
+                     dict(spec=spec, traceback=traceback.format_exc()[-1500:]), case=("attr", idx))
+            continue
+        ctx.count(key=key, nontrivial=not table_plain(table) and max(spec["calls"]) > 1, kind=kind)
+        ctx.bump("attr_nf:" + table["nf"])
+        ctx.bump("attr_dup:" + table["dup"])
+        ctx.bump("attr_container:" + table["container"])
+        ctx.bump("attr_dtype:%s+%s" % (table["wdtype"], table["zdtype"]))
+        ctx.sample(dict(attr_spec=spec), limit=5)
+        for phase, term, replay in res:
+            terms.append(term)
+            metas.append((idx, phase, replay))
+    codes = ctx.shards("Attr_C16", HEADER, terms, shard=60)
+    for (idx, phase, replay), c in zip(metas, codes):
+        if not c:
+            continue
+        for bit, sig, what in ATTR_FAILS:
+            if c & bit:
+                ctx.fail("%s:table-%s" % (sig, phase), "attribute table, %s: %s (code %d)" % (phase, what, c), replay,
+                         case=("attr", idx))
+        if c & 1:
+            ctx.disagree("Attr_C16", ("attr", idx), dict(code=c, phase=phase, replay=replay))
+
+
 def uniformity_report(ctx, Plain, pool):
     """chi-square of area uniformity on an equal-area grid (ra x sin dec); statistic only"""
     rep = {"pooled_case_points_4x4": pool.chi2(), "large_samples_8x8": []}
@@ -471,6 +842,7 @@ def run(ctx):
         for bit, sig, what in FAILS[:3]:
             if c & bit:
                 ctx.fail(sig + "-direct", "direct call gen(k): %s (code %d)" % (what, c), replay, case=("direct", idx))
+    run_attr_cases(ctx, Plain)
     try:
         uniformity_report(ctx, Plain, pool)
     except Exception as e:  # the statistic is never a failure
